@@ -2562,7 +2562,8 @@ void read_table_column_alignments(const char * source, token * table, scratch_pa
 
 	walker = walker ? walker->child : NULL;
 
-	scratch->table_alignment[0] = '\0';
+	// Rows may have more cells than the separator line: those read as "no alignment"
+	memset(scratch->table_alignment, 0, kMaxTableColumns);
 	scratch->table_column_count = 0;
 
 	if (walker == NULL) {
